@@ -1,13 +1,18 @@
 SPECIFICATION Spec
 CONSTANTS
   Kind = "mps"
-  Impl = "asis"
+  Smp = "asis"
+  SumSamples = FALSE
+  ExpSamples = FALSE
   OptImpl = "fixed"
   Ctor = "bare"
   N = 3
   Chans = 2
   Temps = {"any"}
   Acts = {"mode", "fwd"}
+  Writes = {"copy", "data", "optim"}
+  Ckpts = {"soft"}
+  Moves = "gen"
   InitAlpha = "any"
   AllowKF = FALSE
 INVARIANT TypeOK
@@ -20,4 +25,4 @@ INVARIANT ExportIsArgmax
 INVARIANT ReportIsExport
 PROPERTY DisabledKeeps
 PROPERTY ThetaOnlyBySampling
-PROPERTY AlphaOnlyBySetAlpha
+PROPERTY AlphaOnlyByWrites
